@@ -1,9 +1,10 @@
 // Package context models the standard context package: Background,
 // WithCancel, WithTimeout with parent-to-child propagation. Context is the
 // real interface type, so values flow into unshimmed dependencies unchanged.
-// A WithTimeout deadline is fired by a timer goroutine that the scheduler may
-// run at any moment (so the delay of a reply relative to the timeout is a
-// scheduling choice); firing moves the harness clock to the deadline.
+// A WithTimeout/WithDeadline deadline is fired by a timer goroutine that is
+// runnable only once the harness clock has reached the deadline; the clock
+// moves through time.Sleep, or to the earliest pending deadline when every
+// goroutine is blocked.
 package context
 
 import (
@@ -105,15 +106,23 @@ func WithCancel(parent Context) (Context, CancelFunc) {
 }
 
 func WithTimeout(parent Context, d stdtime.Duration) (Context, CancelFunc) {
+	return withDeadline(parent, zzrt.ClockNow()+int64(d))
+}
+
+// WithDeadline: t is a time of the time model (an offset of the harness clock from the zero Time).
+func WithDeadline(parent Context, t stdtime.Time) (Context, CancelFunc) {
+	return withDeadline(parent, int64(t.Sub(stdtime.Time{})))
+}
+
+// The timer goroutine becomes runnable once the harness clock has reached the deadline; the clock moves through
+// time.Sleep / ClockAdvance, or to the earliest pending deadline when every goroutine is blocked.
+func withDeadline(parent Context, deadline int64) (Context, CancelFunc) {
 	c := newCancelCtx(parent)
 	c.timed = true
-	c.deadline = zzrt.ClockNow() + int64(d)
+	c.deadline = deadline
 	zzrt.Go(func() {
-		zzrt.Point()
+		zzrt.AwaitTimer(c.deadline, func() bool { return c.err != nil })
 		if c.err == nil {
-			if now := zzrt.ClockNow(); now < c.deadline {
-				zzrt.ClockAdvance(c.deadline - now)
-			}
 			c.cancel(DeadlineExceeded)
 		}
 	})
